@@ -711,6 +711,8 @@ class Interp:
                 return Builtin(f"ndarray.{name}", lambda *a, _v=v, _n=name, **k: self._arr_method(_v, _n, a, k))
         elif isinstance(v, (str, list, dict, tuple, set, frozenset)):
             return self._pymethod(v, name)
+        elif isinstance(v, slice) and name in ("start", "stop", "step"):
+            return getattr(v, name)
         elif isinstance(v, (bytes, bytearray)):
             if name in ("ljust", "rjust", "decode", "hex", "startswith", "endswith", "find", "count", "split", "strip", "rstrip"):
                 return Builtin(f"bytes.{name}", lambda *a, _m=getattr(v, name), **k: _m(*a, **k))
@@ -835,6 +837,11 @@ class Interp:
         hk = self.call_hooks.get(f"new:{c.name}")
         if hk is not None:
             return hk(self, c, args, kwargs)
+        # a metaclass CALLED like type(name, bases, data): runs its __new__ and returns the class it makes
+        if isinstance(c, ClassVal) and len(args) == 3 and not kwargs and isinstance(args[0], str) and isinstance(args[1], tuple) and isinstance(args[2], dict) and any(norm(b) == "type" for b in c.node.bases):
+            new = self.class_attrs(c).get("__new__")
+            if isinstance(new, FuncVal):
+                return self.call_function(new, [c] + list(args), {})
         # metaclass __call__ is not modelled: plain object.__new__ + __init__
         inst = Obj("instance", {}, cls=c)
         init, owner = self.find_in_class(c, "__init__")
@@ -1843,7 +1850,7 @@ class Interp:
                     return int
                 if isinstance(x, Sym):
                     return int
-                for t in (str, list, tuple, dict):
+                for t in (str, list, tuple, dict, slice, float):
                     if isinstance(x, t):
                         return t
                 if isinstance(x, Obj) and x.cls is not None:
